@@ -45,7 +45,7 @@ def optS (o : Option String) : String := match o with | none => "none" | some s 
 /-- different keys for different root causes -/
 def classify (key : String) (alias : String) (aliasKey : String) (model rhs : String) : Verdict :=
   if model == rhs then .ok
-  else if rhs.startsWith "panic:" then .bad (key ++ "-panic") ("expected=" ++ model ++ " observed=" ++ rhs)
+  else if rhs.startsWith "panic:" then .bad ((if key.endsWith "-wrong" then (key.dropEnd 6).toString else key) ++ "-panic") ("expected=" ++ model ++ " observed=" ++ rhs)
   else if alias != "a0" then .bad aliasKey ("output aliases input " ++ alias ++ " expected=" ++ model ++ " observed=" ++ rhs)
   else .bad key ("expected=" ++ model ++ " observed=" ++ rhs)
 
@@ -163,7 +163,7 @@ def handleNat (op : String) (args : List String) (rhs : String) : Verdict :=
     | some x, some y =>
       -- values only: the announced lengths of the variable-time variants are not a stable convention
       let model := if y.nat = 0 then "none" else "ok:" ++ hx (x.nat / y.nat) ++ "," ++ hx (x.nat % y.nat)
-      classify "divvt-short-numerator" al "divvt-alias-numerator" model (stripCaps rhs)
+      classify "divvt-short-numerator-wrong" al "divvt-alias-numerator" model (stripCaps rhs)
     | _, _ => .unsupported "args"
   | "n.gcd", [al, xs, ys] =>
     match parseCV xs, parseCV ys with
@@ -294,7 +294,7 @@ def handleInt (op : String) (args : List String) (rhs : String) : Verdict :=
       let qr := if eu then edivmod x.int y.int else tdivmod x.int y.int
       let model := if y.int = 0 then "none" else "ok:" ++ rI qr.1 x.c ++ "," ++ rI qr.2 y.c
       let modelV := if y.int = 0 then "none" else "ok:" ++ hi qr.1 ++ "," ++ hi qr.2
-      if vt then classify "divvt-short-numerator" al "divvt-alias-numerator" modelV (stripCaps rhs)
+      if vt then classify "divvt-short-numerator-wrong" al "divvt-alias-numerator" modelV (stripCaps rhs)
       else classify op al "int-div-alias" model rhs
     | _, _ => .unsupported "args"
   | "i.neg", [xs] => match parseCV xs with
@@ -538,7 +538,7 @@ def handleNum (op : String) (args : List String) (rhs : String) : Verdict :=
   | "N.edivvt", [as, bs] =>
     match hexToNat? as, hexToNat? bs with
     | some a, some b =>
-      classify "divvt-short-numerator" "a0" "" (if b = 0 then "none" else "ok:" ++ hx (a / b) ++ ":" ++ hx (a % b)) rhs
+      classify "divvt-short-numerator-wrong" "a0" "" (if b = 0 then "none" else "ok:" ++ hx (a / b) ++ ":" ++ hx (a % b)) rhs
     | _, _ => .unsupported "args"
   | "N.misc", [as, bs, ms, ss] =>
     match hexToNat? as, hexToNat? bs, hexToNat? ms, ss.toNat? with
@@ -563,7 +563,7 @@ def handleNum (op : String) (args : List String) (rhs : String) : Verdict :=
       let round := if b = 0 then "none" else "ok:" ++ hi t.1
       let ed := if b = 0 then "none" else "ok:" ++ hi e.1 ++ ":" ++ hi e.2
       if op == "Z.div" then spec op (joinComma [exact, round, ed]) rhs
-      else classify "divvt-short-numerator" "a0" "" (joinComma [exact, round, ed]) rhs
+      else classify "divvt-short-numerator-wrong" "a0" "" (joinComma [exact, round, ed]) rhs
     | _, _ => .unsupported "args"
   | "Z.misc", [as, ms, ss] =>
     match hexToInt? as, hexToNat? ms, ss.toNat? with
